@@ -300,7 +300,7 @@ def run(ctx):
         for case in big_cases():
             run_case(ctx, case)
             ctx.count("big_inputs")
-    for i in range(8000 if quick else 20000):
+    for i in range(ctx.n(8000 if quick else 20000)):
         case = gen_case(rng, big=(not quick and i % 10 == 0))
         run_case(ctx, case)
         if ctx.shard == 0 and i in (2, 40, 41):
